@@ -102,6 +102,25 @@ def build_view(rng, cls, content_len):
             files.append((SubsectionIO(bio, len(p), len(s)), len(s)))
         v = SplitFileMerger(files)
         return v, content, False, None, keep
+    if cls in ('ctr-on-window', 'twl-on-window', 'cbc-on-window'):
+        # crypto wrappers stacked on a window: the view is the plaintext; the base holds its independent encryption
+        from .. import ctrcommon as cc
+        from Cryptodome.Cipher import AES
+        key = pyenv.rbytes(rng, 16)
+        if cls == 'cbc-on-window':
+            content = content[:len(content) // 16 * 16]
+            iv = pyenv.rbytes(rng, 16)
+            ct = AES.new(key, AES.MODE_CBC, iv).encrypt(content) if content else b''
+        else:
+            ctr = rng.getrandbits(100)
+            ct = cc.stream_xor(key, ctr, content, cls == 'twl-on-window')
+        bio = io.BytesIO(pre + ct + post)
+        inner = SubsectionIO(bio, len(pre), len(content))
+        slot = 0x03 if cls == 'twl-on-window' else 0x2C
+        e = cc.make_engine(key, slot)
+        v = e.create_cbc_io(slot, inner, iv) if cls == 'cbc-on-window' else e.create_ctr_io(slot, inner, ctr)
+        o = len(pre)
+        return v, content, cls != 'cbc-on-window', (lambda: bio.getvalue()[:o] + b'|' + bio.getvalue()[o + len(content):]), [bio, inner, e]
     raise ValueError(cls)
 
 
@@ -123,11 +142,13 @@ def gen_cases(ctx, rng):
         blen = off + sz + extra if not short else rng.randrange(off, off + sz + 1)
         yield dict(cls='window', base=pyenv.rbytes(rng, blen).hex(), off=off, sz=sz,
                    ops=fc.gen_ops(rng, sz, rng.randrange(1, 16)))
-    for cls in ('nested-window', 'closewrapper', 'merger'):
+    for cls in ('nested-window', 'closewrapper', 'merger', 'ctr-on-window', 'twl-on-window', 'cbc-on-window'):
         for i in range(ctx.n(300, 10000)):
             sz = rng.choice([0, 1, 2, 3, 5, 16, 17, 40])
+            if cls == 'cbc-on-window':
+                sz = rng.choice([0, 16, 32, 48, 80])
             yield dict(cls=cls, sz=sz, vseed=rng.randrange(1 << 30),
-                       ops=fc.gen_ops(rng, sz, rng.randrange(1, 16), writable=(cls != 'merger')))
+                       ops=fc.gen_ops(rng, sz, rng.randrange(1, 16), writable=(cls not in ('merger', 'cbc-on-window'))))
 
 
 def exhaustive_cases():
